@@ -595,7 +595,7 @@ pub fn gen_bound(a: &Args, out: &mut Out, run0: u64, reps: u64) -> u64 {
     let mut run = run0;
     let edge: [u16; 8] = [0x7FFF, 0x8000, 0x0000, 0xFFFF, 0x0001, 0x7FFE, 0x8001, 0xFFFE];
     for _ in 0..reps {
-        for case in 0..10u32 {
+        for case in 0..11u32 {
             for sub in 0..8u32 {
                 let sup = case != 4 || sub % 2 == 0;
                 let flags = SimFlags {
@@ -603,8 +603,10 @@ pub fn gen_bound(a: &Args, out: &mut Out, run0: u64, reps: u64) -> u64 {
                     machine_init: MachineInitStrategy::Known { value: pick(&mut rng, &[0u16, 0xFFFF]) },
                     debug_frames: chance(&mut rng, 50), ignore_privilege: chance(&mut rng, 25),
                 };
+                let flags = if case == 7 { SimFlags { use_real_traps: sub >= 4, strict: false, ..flags } }
+                            else if case == 10 { SimFlags { strict: true, ignore_privilege: false, ..flags } } else { flags };
                 let mut m = M::new(run, flags, out); run += 1;
-                let psr = (if sup { 0 } else { 0x8000 }) | (rng.random_range(0..8u16) << 8) | pick(&mut rng, &[1u16, 2, 4]);
+                let psr = (if sup { 0 } else { 0x8000 }) | (rng.random_range(0..(if case == 7 { 7 } else { 8 })) << 8) | pick(&mut rng, &[1u16, 2, 4]);
                 m.set_psr(out, psr);
                 let pc: u16 = if sup { pick(&mut rng, &[0x1000u16, 0x0300, 0x3000, 0x2FFE]) } else { 0x3000 + rng.random_range(0..0x100u16) };
                 let mut pokes: Vec<(u16, Word)> = vec![];
@@ -649,18 +651,25 @@ pub fn gen_bound(a: &Args, out: &mut Out, run0: u64, reps: u64) -> u64 {
                         let op = pick(&mut rng, &[0x2000u16, 0x3000, 0xA000, 0xB000, 0xE000, 0x0E00, 0x4800]);
                         pokes.push((pcs, word(op | (if op == 0x4800 { off & 0x7FF } else { off }), 0xFFFF)));
                     }
-                    5 => { // MMIO stores of arbitrary values (STI) and loads back (LDI)
-                        let port = pick(&mut rng, &[0xFE00u16, 0xFE02, 0xFE04, 0xFE06, 0xFFFC, 0xFFFE, 0xFE20, 0xFE22]);
-                        let val: u16 = pick(&mut rng, &[0x8000u16, 0xC000, 0x4000, 0xBFFF, 0x7FFF, 0xFFFF, 0x0000, 0x8007, 0x0700, 0x8300]) ^ (rng.random::<u16>() & 0x0038);
+                    5 => { // MMIO stores of arbitrary values (STI) and loads back (LDI), every port in turn
+                        let port = [0xFE00u16, 0xFE02, 0xFE04, 0xFE06, 0xFFFC, 0xFFFE, 0xFE20, 0xFE22][sub as usize];
+                        let vals: [u16; 4] = [
+                            pick(&mut rng, &[0x8000u16, 0xBFFF, 0x8001, 0xA5A5]) ,
+                            pick(&mut rng, &[0xC000u16, 0x4000, 0x7FFF, 0xFFFF]),
+                            pick(&mut rng, &[0x0000u16, 0x8007, 0x0700, 0x8300, 0x0003]),
+                            rng.random(),
+                        ];
                         m.mmap(out, 0xFE20, InternalRegister::SavedSP);
                         m.mmap(out, 0xFE22, InternalRegister::PC);
                         m.keys(out, &[b'z']);
-                        m.set_reg(out, 1, word(val, 0xFFFF));
-                        pokes.push((pc, word(0xB203, 0xFFFF)));           // STI R1, +3
-                        pokes.push((pc + 1, word(0xA402, 0xFFFF)));       // LDI R2, +2
-                        pokes.push((pc + 2, word(0x1021, 0xFFFF)));
-                        pokes.push((pc + 3, word(0x1021, 0xFFFF)));
-                        pokes.push((pc + 4, word(port, 0xFFFF)));
+                        for (i, v) in vals.iter().enumerate() { m.set_reg(out, 1 + i as u8, word(*v, 0xFFFF)); }
+                        // STI R1..R4 / LDI R5 through the pointer at pc+12
+                        for i in 0..4u16 {
+                            pokes.push((pc + 2 * i, word(0xB000 | ((1 + i) << 9) | ((12 - 2 * i - 1) & 0x1FF), 0xFFFF)));
+                            pokes.push((pc + 2 * i + 1, word(0xAA00 | ((12 - 2 * i - 2) & 0x1FF), 0xFFFF)));
+                        }
+                        pokes.push((pc + 8, word(0x1021, 0xFFFF)));
+                        pokes.push((pc + 12, word(port, 0xFFFF)));
                     }
                     6 => { // RTI popping unusual PSR words
                         let sp: u16 = 0x2F00 + rng.random_range(0..0x40u16);
@@ -674,11 +683,11 @@ pub fn gen_bound(a: &Args, out: &mut Out, run0: u64, reps: u64) -> u64 {
                         pokes.push((0x3102, word(0x1021, 0xFFFF)));
                         pokes.push((0x3103, word(0x1021, 0xFFFF)));
                     }
-                    7 => { // interrupts whose vectors alias the exception vectors, or any vector
+                    7 => { // interrupts whose vectors alias the exception vectors (x100-x102) or the HALT vector number
                         let s1 = m.add_intfn(out);
-                        let vect: u8 = pick(&mut rng, &[0x00u8, 0x01, 0x02, 0x25, 0x03, 0x80, 0xFF]);
-                        m.set_int(s1, IntCmd { k: 1, vect, prio: rng.random_range(0..9u8) });
-                        m.set_reg(out, 6, word(pick(&mut rng, &[0x2F00u16, 0x0001, 0x0000, 0x3000]), 0xFFFF));
+                        let vect: u8 = [0x00u8, 0x01, 0x02, 0x25, 0x00, 0x01, 0x02, 0x80][sub as usize];
+                        m.set_int(s1, IntCmd { k: 1, vect, prio: 7 });
+                        m.set_reg(out, 6, word(pick(&mut rng, &[0x2F00u16, 0x2F80, 0x3000]), 0xFFFF));
                         pokes.push((pc, word(0x1021, 0xFFFF)));
                         pokes.push((pc + 1, word(0x1021, 0xFFFF)));
                     }
@@ -686,6 +695,22 @@ pub fn gen_bound(a: &Args, out: &mut Out, run0: u64, reps: u64) -> u64 {
                         m.set_reg(out, 6, word(pick(&mut rng, &[0x0000u16, 0x0001, 0x0002, 0xFFFF]), 0xFFFF));
                         if !sup { m.mmap(out, 0xFE20, InternalRegister::SavedSP); m.write_mem(out, 0xFE20, word(pick(&mut rng, &[0u16, 1, 2]), 0xFFFF), MemAccessCtx::omnipotent()); }
                         pokes.push((pc, word(pick(&mut rng, &[0xF021u16, 0xF030, 0xD000, 0x8000]), 0xFFFF)));
+                    }
+                    10 => { // strict mode: a return that is rejected (R7 uninitialized, or pointing at uninitialized
+                            // memory) while a frame is open; the harness clobbers R7 between the call and the return
+                        pcs = 0x3000;
+                        pokes.push((0x3000, word(0x4802, 0xFFFF)));       // JSR +2 -> x3003
+                        pokes.push((0x3001, word(0x1021, 0xFFFF)));
+                        pokes.push((0x3003, word(if sub % 2 == 0 { 0xC1C0 } else { 0x1021 }, 0xFFFF)));  // RET | ADD
+                        pokes.push((0x3004, word(0xC1C0, 0xFFFF)));       // RET
+                        m.set_mems(out, &pokes);
+                        pokes.clear();
+                        m.set_psr(out, 0x8002);
+                        m.set_pc(out, pcs);
+                        if m.step(out, false, false) == "panic" { continue; }
+                        let bad_r7 = match sub % 4 { 0 | 1 => word(0x3001, 0x0000), 2 => word(0x5000, 0xFFFF), _ => word(0x3001, 0xFF00) };
+                        m.set_reg(out, 7, bad_r7);
+                        pcs = m.sim.pc;
                     }
                     _ => { // JSR / JSRR / TRAP / BR placed at the last address, RET to x0000
                         pcs = 0xFFFF;
